@@ -261,6 +261,8 @@ def run(case):
     if case["on"] == "newthread":
         kw["max_steps"] = 20000
     culprit = "observe_on" if case["target"] == "observe_on" else "replay-scheduled-observer"
+    if any(s["at"] == "thr" for s in case["subs"]):
+        culprit += "+subscriber-thread"  # a second thread calls ensure_active on the same ScheduledObserver
     with _recording():
         return conc.drive(case, lambda: _build(case), _judge, culprit=culprit, kw=kw, nontrivial=_nontrivial, classes=_classes)
 
@@ -276,37 +278,61 @@ def _pre(raise_=None):
     return {"at": "pre", "raise": raise_}
 
 
-def _programs(tier, small):
-    """(target, on, seq, subs, dispose) tuples.  small=True: the 2-3 element programs used for K=2."""
-    seqs = ["NC", "NN", "NE", "NNC"] if small else ["C", "NC", "NE", "NN", "NNC", "NNE", "NNNC"]
+def _thr(raise_=None):
+    return {"at": "thr", "raise": raise_}
+
+
+def _programs(small):
+    """(target, on, seq, subs, dispose) tuples.  small=True: the 2-3 element programs used for K>=2."""
+    seqs = ["NC", "NN", "NE", "NNC"] if small else ["C", "NC", "NE", "NN", "NNC", "NNNC"]
     out = []
     for on in ONS:
         for seq in seqs:
             out.append(("observe_on", on, seq, [_pre()], None))
             out.append(("replay", on, seq, [_pre()], None))
-        for seq in (["NNC"] if small else ["NNC", "NNNE"]):
+        for seq in ["NNC"]:
             out.append(("observe_on", on, seq, [_pre(0)], None))
             out.append(("observe_on", on, seq, [_pre(1)], None))
             out.append(("replay", on, seq, [_pre(0), _pre()], None))
             out.append(("replay", on, seq, [_pre(), _pre(1)], None))
-            out.append(("replay", on, seq, [{"at": "thr", "raise": None}], None))
-            out.append(("replay", on, seq, [_pre(), {"at": "thr", "raise": None}], None))
+            out.append(("replay", on, seq, [_thr()], None))
+            out.append(("replay", on, seq, [_pre(), _thr()], None))
             out.append(("replay", on, seq, [{"at": 1, "raise": None}], None))
             out.append(("observe_on", on, seq, [_pre()], 1))
             out.append(("replay", on, seq, [_pre(), _pre()], 2))
         if not small:
-            out.append(("replay", on, "NNC", [{"at": "thr", "raise": 1}, {"at": "thr", "raise": None}], None))
+            out.append(("replay", on, "NNE", [_thr(1), _thr()], None))
             out.append(("replay", on, "NNC", [{"at": 3, "raise": None}], None))
+            out.append(("observe_on", on, "NNNE", [_pre(2)], None))
     return out
 
 
+# quick K=2 (focus trace): the programs that exercise each part of the handshake with the fewest steps
+_QUICK_K2 = [
+    ("observe_on", "loop", "NN", [_pre()], None),  # producer append/ensure_active vs run's empty check + release
+    ("observe_on", "loop", "NC", [_pre()], None),
+    ("observe_on", "loop", "NE", [_pre()], None),
+    ("observe_on", "loop", "NNC", [_pre()], None),
+    ("observe_on", "newthread", "NN", [_pre()], None),  # serial delivery rests on is_acquired alone
+    ("observe_on", "catchloop", "NNC", [_pre(0)], None),  # fault path, loop survives
+    ("observe_on", "newthread", "NNC", [_pre(1)], None),
+    ("observe_on", "loop", "NNC", [_pre()], 1),  # dispose racing the drain
+    ("replay", "loop", "NN", [_pre()], None),
+    ("replay", "loop", "NN", [_thr()], None),  # two ensure_active callers (subscriber, producer) + loop
+    ("replay", "loop", "NC", [_pre(), _thr()], None),
+    ("replay", "newthread", "NN", [_thr()], None),
+    ("replay", "loop", "NN", [_pre(), _pre()], None),
+    ("replay", "catchloop", "NN", [_pre(0), _pre()], None),
+]
+
+
 def _enum_k1(tier):
-    for target, on, seq, subs, dispose in _programs(tier, small=False):
+    for target, on, seq, subs, dispose in _programs(small=False):
         m = 4 if (on == "newthread" and len(subs) > 1) else 1  # spread the big explorations over several cases
         for i in range(m):
             yield _case(target, on, seq, subs, conc.sched_all(1, [i, m] if m > 1 else None), False, dispose)
     if tier == "thorough":
-        for target, on, seq, subs, dispose in _programs(tier, small=True):
+        for target, on, seq, subs, dispose in _programs(small=True):
             m = 16
             for i in range(m):
                 yield _case(target, on, seq, subs, conc.sched_all(2, [i, m]), False, dispose)
@@ -314,13 +340,11 @@ def _enum_k1(tier):
 
 def _enum_k2(tier):
     m = 4 if tier == "quick" else 8
-    for target, on, seq, subs, dispose in _programs(tier, small=True):
-        if tier == "quick" and on == "newthread" and len(subs) > 1:
-            continue  # thorough only: every drain step is a new thread, K=2 costs ~10x the loop variants
+    for target, on, seq, subs, dispose in _QUICK_K2 if tier == "quick" else _programs(small=True):
         for i in range(m):
             yield _case(target, on, seq, subs, conc.sched_all(2, [i, m]), True, dispose)
     if tier == "thorough":
-        for target, on, seq, subs, dispose in _programs(tier, small=True):
+        for target, on, seq, subs, dispose in _programs(small=True):
             if on == "newthread" or len(seq) > 2 and len(subs) > 1:
                 continue
             for i in range(32):
@@ -357,5 +381,5 @@ def checks(tier):
     return [
         Check("enum-k1", run, cases=_enum_k1, shards={"quick": 8, "thorough": 16}, exhaustive=True),
         Check("enum-k2", run, cases=_enum_k2, shards={"quick": 8, "thorough": 16}, exhaustive=True),
-        Check("gen", run, strategy=_gen, examples={"quick": 1200, "thorough": 16 * 6000}, shards={"quick": 8, "thorough": 16}),
+        Check("gen", run, strategy=_gen, examples={"quick": 480, "thorough": 16 * 6000}, shards={"quick": 8, "thorough": 16}),
     ]
